@@ -384,9 +384,8 @@ class Emit:
         return s.tnames[key]
     def defstruct(s, nm, t):
         if t.k == 'arr':
-            if t.n == 0: raise NotImplementedError('zero-length array type')
             el = s.ct(t.el)
-            s.tdefs.append('%s { %s a[%d]; };' % (nm, el, t.n))
+            s.tdefs.append('%s { %s a[%d]; };' % (nm, el, t.n))      # [0 x T] stays a zero-length (GNU) array: any access is out of bounds
             return
         s.tdefs.append(nm + ';')
         fs = []
